@@ -197,13 +197,13 @@ CHECKS["C08"] = {
 
 CHECKS["C06"] = {
     "level": "exploration",
-    "technique": "property-based testing (rapid under testing/synctest): 2..8 clients with pairwise different utls ClientHellos, HTTP/2 preambles and peer addresses (some equal on purpose) run a generated interleaving of connect / request (sequential keep-alive, multiplexed) / disconnect / reconnect-with-a-different-hello steps, in barrier mode (quiescence after every step, replayable) and free-running (one goroutine per client); every backend request is tagged and its three fingerprints and X-Forwarded-For are compared with references computed from that connection's own wire bytes",
+    "technique": "property-based testing (rapid under testing/synctest): 2..8 clients with pairwise different utls ClientHellos, HTTP/2 preambles and peer addresses (some equal on purpose) run a generated interleaving of connect / request (sequential keep-alive, multiplexed) / disconnect / reconnect-with-a-different-hello steps, in barrier mode (quiescence after every step, replayable) and free-running (one goroutine per client); every backend request is tagged and its three fingerprints and X-Forwarded-For are compared with references computed from that connection's own wire bytes; direct layer (c06.hammer): the three fingerprint functions evaluated for 2..6 generated connections from up to 32 goroutines at once, some 100 000 evaluations per case, each against the reference value of the connection whose metadata was passed in",
     "rule": "case = client set + step interleaving + mode. Non-trivial = at least two connections with overlapping lifetimes, at least one HTTP/2 and one HTTP/1.1 (or no-ALPN) connection; distinct by hash of the script.",
     "level_text": "Generated histories with an exact per-connection oracle: a value taken from any other connection (past or concurrent, same or other peer address) differs from the expected one and is reported with the tag of the connection it belongs to.",
     "level_note": _E2E_NOTE + " Free-running mode explores the interleavings the Go scheduler happens to produce; barrier mode explores orderings of whole steps.",
     "assumptions": ["SNI host names of 253+ bytes (C01's known finding) are replaced by a short name in this check"],
     "units": [{"name": "c06", "pkg": "c06", "run": "^Test", "shards": 8}],
-    "expect_checks": ["c06.attribution"],
+    "expect_checks": ["c06.attribution", "c06.hammer"],
 }
 
 CHECKS["C07"] = {
